@@ -36,9 +36,20 @@ pub fn type_to_tokens(ty: &ASN1Type) -> String {
             .join(" | "),
         ASN1Type::Choice(c) => format_choice_options(c),
         ASN1Type::Set(se) | ASN1Type::Sequence(se) => format_sequence_or_set_members(se),
-        ASN1Type::SetOf(s) | ASN1Type::SequenceOf(s) => type_to_tokens(&s.element_type) + "[]",
+        ASN1Type::SetOf(s) | ASN1Type::SequenceOf(s) => array_of(&s.element_type),
         ASN1Type::ElsewhereDeclaredType(e) => to_jer_identifier(&e.identifier),
         _ => String::from("any"),
+    }
+}
+
+/// Array type of an element type; a union type (CHOICE, anonymous ENUMERATED) needs parentheses,
+/// since `A | B[]` is `A | (B[])`.
+pub fn array_of(element_type: &ASN1Type) -> String {
+    let element = type_to_tokens(element_type);
+    if matches!(element_type, ASN1Type::Choice(_) | ASN1Type::Enumerated(_)) {
+        format!("({element})[]")
+    } else {
+        element + "[]"
     }
 }
 
